@@ -232,6 +232,13 @@ def run(ctx):
                 not any(g.can_reach(s_, p_, follow_exc=False) for s_ in sn for p_ in pn)
             c.ob("R6", ok, d, "supersede-cancels-previous", "the previous canceller registered under the id is invoked before it is overwritten" if ok else
                  "a send id is overwritten without cancelling the pending send that used it: both are delivered and cancel(id) reaches only the newer", w.node)
+        for x in prev_calls:
+            pv = x.func.id
+            at = [canon_atom(a, pol) for a, pol in guards_at(d, x)]
+            mine = [t for t in at if pv in (t[1], t[2])]
+            okp = bool(mine) and all(t in (("is", "None", pv, False), ("is", pv, "None", False), ("truthy", pv, "", True)) for t in mine)
+            c.ob("R6", okp, d, "previous-canceller-called-when-present", "the previous canceller is invoked exactly when there is one" if okp else
+                 f"'{norm(x)}' is guarded by {mine or 'nothing'}: the pending send that used the id is not cancelled when it exists (or None is called when it does not)", x)
     # cancel(id) pops exactly that id
     cs = p.method("BaseInterpreter", "_cancel_scheduled_send")
     pops = [x for x in own_nodes(cs.node) if isinstance(x, ast.Call) and isinstance(x.func, ast.Attribute) and x.func.attr == "pop" and "_scheduled_sends" in norm(x.func.value)]
